@@ -459,8 +459,14 @@ macro_rules! impl_cache_processor {
                         Ok(())
                     }
                     $item::Delete { key, conflict } => {
-                        self.policy.remove(&key); // deals with metrics updates.
-                        if let Some(sitem) = self.store.try_remove(&key, conflict)? {
+                        // The entry goes first: a Delete queued for a colliding key (same index,
+                        // other conflict) removes nothing, and the entry that stays resident must
+                        // stay charged, otherwise it could never be evicted.
+                        let removed = self.store.try_remove(&key, conflict)?;
+                        if removed.is_some() || self.store.expiration(&key).is_none() {
+                            self.policy.remove(&key); // deals with metrics updates.
+                        }
+                        if let Some(sitem) = removed {
                             self.callback.on_exit(Some(sitem.value.into_inner()));
                         }
 
